@@ -335,7 +335,10 @@ namespace cnl {
             [[nodiscard]] constexpr auto operator()(Lhs const& lhs, Rhs const& rhs) const
             {
                 using traits = operator_overflow_traits<shift_left_op, Lhs, Rhs>;
-                return lhs < 0 ? rhs > 0 ? rhs < traits::positive_digits
+                // -1 << positive_digits is the most negative number (of types which have one)
+                constexpr auto shift_limit = traits::positive_digits
+                                           + (has_most_negative_number<typename traits::result>::value ? 1 : 0);
+                return lhs < 0 ? rhs > 0 ? rhs < shift_limit
                                                  ? (lhs >> (traits::positive_digits - rhs)) != -1
                                                  : true
                                          : false
